@@ -246,6 +246,7 @@ _JSONDICT_PROTECTED_KEYS = frozenset(
         "_validators",
         "_all_validators",
         "_load_and_save",
+        "_lock_and_save",
         "_suspend_sync",
         "_supports_threading",
         "_LoadSaveType",
